@@ -2137,9 +2137,10 @@ Proof.
     assert (G1' : (x < g_next R1')%nat) by (unfold R1'; rewrite g_next_r_enable; auto).
     destruct (absent_pass sc (KId id) sz (hids (rget (KId id) R1')) R1' x G1' A1') as (a2&g2&l2).
     destruct (absent_pass sc KStanza sz (hids (rget KStanza R1)) _ x g2 a2) as (a3&g3&l3).
-    repeat split; auto. intros e He Hc. rewrite <- L1. unfold R1' in l2. rewrite g_log_r_enable in l2. auto.
+    split; [exact a3 | split; [exact g3 |]].
+    intros e He Hc. rewrite <- L1. unfold R1' in l2. rewrite g_log_r_enable in l2. auto.
   - destruct (absent_pass sc KStanza sz (hids (rget KStanza R1)) R1 x G1 A1) as (a3&g3&l3).
-    repeat split; auto. intros e He Hc. rewrite <- L1. auto.
+    split; [exact a3 | split; [exact g3 |]]. intros e He Hc. rewrite <- L1. auto.
 Qed.
 
 Lemma absent_fire_timed : forall sc R x, (x < g_next R)%nat -> absent R x ->
@@ -2153,7 +2154,7 @@ Proof.
     assert (A0 : absent (r_enable KTimed R) x) by (apply absent_r_enable; auto).
     assert (G0 : (x < g_next (r_enable KTimed R))%nat) by (rewrite g_next_r_enable; auto).
     destruct (absent_pass sc KTimed no_stanza (hids (rget KTimed (r_enable KTimed R))) _ x G0 A0) as (a&g&l).
-    repeat split; auto. intros e He Hc. rewrite <- (g_log_r_enable KTimed R). auto. }
+    split; [exact a | split; [exact g |]]. intros e He Hc. rewrite <- (g_log_r_enable KTimed R). auto. }
   destruct H1 as (a1&g1&l1).
   destruct (absent_pass sc KGlobal no_stanza (hids (rget KGlobal R1)) R1 x g1 a1) as (a2&g2&l2).
   repeat split; auto.
@@ -2161,6 +2162,18 @@ Qed.
 
 Lemma absent_same_lists : forall R R' x, (forall k, rget k R' = rget k R) -> absent R x -> absent R' x.
 Proof. intros R R' x H A k. rewrite H. apply A. Qed.
+
+Lemma absent_reset : forall u R x, absent R x ->
+  absent (r_reset u R) x /\ g_next (r_reset u R) = g_next R /\ g_log (r_reset u R) = g_log R.
+Proof.
+  intros u R x Ab. unfold r_reset. split; [|split].
+  - intro k. destruct (kind_eq_dec k KTimed) as [->|N].
+    + rewrite rget_rset_same. rewrite present_map_same; auto.
+      intro r. destruct ((u && r_user r) || negb u); auto. apply hid_rec_stamp.
+    + rewrite rget_rset_other; auto.
+  - apply g_next_rset.
+  - apply (g_fields_rset KTimed _ R).
+Qed.
 
 Lemma absent_op : forall sc o R x, no_sysdel o -> (x < g_next R)%nat -> absent R x ->
   absent (spec_op sc o R) x /\ (x < g_next (spec_op sc o R))%nat /\
@@ -2176,8 +2189,9 @@ Proof.
   - unfold spec_run_once.
     assert (F : absent (r_flush R) x /\ (x < g_next (r_flush R))%nat /\
                 forall e, In e (g_log (r_flush R)) -> is_call_of x e -> In e (g_log R)).
-    { unfold r_flush. destruct (g_conn R); auto. repeat split; auto.
-      - eapply absent_same_lists; eauto. intro k; destruct k; reflexivity.
+    { unfold r_flush. destruct (g_conn R); [|repeat split; auto].
+      split; [|split; [exact Hx|]].
+      - eapply absent_same_lists; [|exact Ab]. intro k; destruct k; reflexivity.
       - intros e He Hc. simpl in He. apply in_app_or in He. destruct He as [He|He]; auto.
         apply in_rev in He. apply in_map_iff in He. destruct He as [d [<- _]].
         destruct Hc as (cb&ud&u&k&t&ret&Hc). discriminate. }
@@ -2185,27 +2199,17 @@ Proof.
     destruct (absent_fire_timed sc (r_flush R) x g0 a0) as (a1&g1&l1).
     destruct events; [|repeat split; auto].
     destruct (absent_fire_timed sc _ x g1 a1) as (a2&g2&l2). repeat split; auto.
-  - repeat split; auto. eapply absent_same_lists; eauto. intro k; destruct k; reflexivity.
-  - repeat split; auto. eapply absent_same_lists; eauto. intro k; destruct k; reflexivity.
-  - repeat split; auto. eapply absent_same_lists; eauto. intro k; destruct k; reflexivity.
-  - unfold r_reset. repeat split.
-    + intro k. destruct (kind_eq_dec k KTimed) as [->|N].
-      * rewrite rget_rset_same. rewrite present_map_same; auto.
-        intro r. destruct ((user_only && r_user r) || negb user_only); auto. apply hid_rec_stamp.
-      * rewrite rget_rset_other; auto.
-    + rewrite g_next_rset. auto.
-    + intros e He _. destruct (g_fields_rset KTimed (map (fun r => if (user_only && r_user r) || negb user_only then rec_stamp KTimed (g_clock R) r else r) (rget KTimed R)) R) as (l&_).
-      rewrite l in He. exact He.
+  - split; [|split; [exact Hx | auto]]. eapply absent_same_lists; [|exact Ab]. intro k; destruct k; reflexivity.
+  - split; [|split; [exact Hx | auto]]. eapply absent_same_lists; [|exact Ab]. intro k; destruct k; reflexivity.
+  - split; [|split; [exact Hx | auto]]. eapply absent_same_lists; [|exact Ab]. intro k; destruct k; reflexivity.
+  - destruct (absent_reset user_only R x Ab) as (a&g&l). split; [exact a | split; [rewrite g; exact Hx |]].
+    intros e He _. rewrite l in He. exact He.
   - exfalso. apply NS. reflexivity.
-  - unfold r_reset. repeat split.
-    + intro k. destruct (kind_eq_dec k KTimed) as [->|N].
-      * simpl. rewrite present_map_same; auto. apply (Ab KTimed). intro r. apply hid_rec_stamp.
-      * replace (rget k (rset_neg (rset KTimed (map (fun r => if (false && r_user r) || negb false then rec_stamp KTimed (g_clock R) r else r) (rget KTimed R)) R) true))
-          with (rget k (rset KTimed (map (fun r => if (false && r_user r) || negb false then rec_stamp KTimed (g_clock R) r else r) (rget KTimed R)) R))
-          by (destruct k; reflexivity).
-        rewrite rget_rset_other; auto.
-    + simpl. auto.
-    + intros e He _. simpl in He. exact He.
+  - destruct (absent_reset false R x Ab) as (a&g&l). split; [|split].
+    + eapply absent_same_lists; [|exact a]. intro k; destruct k; reflexivity.
+    + change (g_next (rset_neg (r_reset false R) true)) with (g_next (r_reset false R)). rewrite g. exact Hx.
+    + intros e He _. change (g_log (rset_neg (r_reset false R) true)) with (g_log (r_reset false R)) in He.
+      rewrite l in He. exact He.
 Qed.
 
 Theorem never_again_lemma : forall sc ops R x, Forall no_sysdel ops -> (x < g_next R)%nat -> absent R x ->
